@@ -270,3 +270,34 @@ func minTurnDot(c []P, s, u float64) float64 {
 	}
 	return best
 }
+
+// turnWitness looks for t1 <= t2 in [s,u] with B'(t1).B'(t2) <= 0 (most negative cosine over a sample grid).
+func turnWitness(c []P, s, u float64) (float64, float64, bool) {
+	const N = 32
+	var d [N + 1]P
+	var t [N + 1]float64
+	for i := 0; i <= N; i++ {
+		t[i] = s + (u-s)*float64(i)/N
+		if i == N {
+			t[i] = u
+		}
+		d[i] = bezDeriv(c, t[i])
+	}
+	best, bi, bj := math.Inf(1), -1, -1
+	for i := 0; i <= N; i++ {
+		for j := i + 1; j <= N; j++ {
+			l := math.Hypot(d[i].X, d[i].Y) * math.Hypot(d[j].X, d[j].Y)
+			v := 0.0
+			if l > 0 {
+				v = dot(d[i], d[j]) / l
+			}
+			if v < best {
+				best, bi, bj = v, i, j
+			}
+		}
+	}
+	if bi < 0 || best > 0 {
+		return 0, 0, false
+	}
+	return t[bi], t[bj], true
+}
